@@ -171,6 +171,13 @@ func TestC16Standin(t *testing.T) {
 				}
 				// only one of the two server ports belongs to conversation k; the other packet opens a new conversation
 				// with the same client endpoint - both are fine for the comparison below, which reads what is there
+				if rng.Intn(3) == 0 {
+					// a capture that is older than everything imported so far: the stream is rebuilt with the
+					// older datagram in front (reset), its converter output has to be produced again as well
+					imp([]pcapOverIPPacket{makeUDPPacket(fmt.Sprintf("9.0.%d.%d:%d", h%250, k, 100+k), "2.3.4.5:9001", t1.Add(-time.Duration(tick)*time.Second), words[rng.Intn(len(words))])})
+					ops = append(ops, fmt.Sprintf("import older data for client %d", k))
+					break
+				}
 				imp(pk[:1+rng.Intn(2)])
 				ops = append(ops, fmt.Sprintf("import more data for client %d", k))
 			case r < 8:
